@@ -77,6 +77,8 @@ type Run struct {
 	added         map[string]int64
 	keys          map[string]struct{}
 	distinctExtra int
+	watching      atomic.Bool
+	watchTicks    atomic.Int64
 }
 
 func Begin(id, level string, args []string) *Run {
@@ -110,6 +112,70 @@ func Begin(id, level string, args []string) *Run {
 }
 
 func (r *Run) Thorough() bool { return r.Tier == "thorough" }
+
+// WatchProgress arms a process-level watchdog for checks that run the code under test inside this
+// process (no worker isolation): if neither an evaluation nor a heartbeat has happened for d, a
+// goroutine of the code under test is spinning (a blocked one would have been reported by the
+// harness). The goroutine dump names the function; the check reports `<id>|no-progress|<function>`
+// and ends with what it has. If no goroutine is inside the library the harness itself is stuck: that
+// is an infrastructure error, not a verdict. StopWatch disarms it (before waiting for a foreign part).
+func (r *Run) WatchProgress(d time.Duration) {
+	if r.child != nil || r.watching.Swap(true) {
+		return
+	}
+	go func() {
+		last, since := int64(-1), time.Now()
+		for r.watching.Load() {
+			time.Sleep(2 * time.Second)
+			cur := r.Evals.Load() + r.watchTicks.Load()
+			if cur != last {
+				last, since = cur, time.Now()
+				continue
+			}
+			if time.Since(since) < d || !r.watching.Load() {
+				continue
+			}
+			buf := make([]byte, 8<<20)
+			dump := string(buf[:runtime.Stack(buf, true)])
+			site := spinSite(dump)
+			if site == "?" {
+				Infra("%s: no evaluation for %v and no goroutine inside the code under test:\n%s", r.ID, d, Trunc(dump, 6000))
+			}
+			r.Violation(r.ID+"|no-progress|"+site, fmt.Sprintf("no evaluation completed for %v; a goroutine is running inside %s (a call that never returns)", d, site), map[string]any{"goroutines": Trunc(dump, 20000)})
+			r.Cap("aborted by the no-progress watchdog after %d evaluations", r.Evals.Load())
+			n := r.Evals.Load()
+			r.Finish(Coverage{"states": n, "transitions": n, "traces_validated_against_impl": n, "rule": "aborted by the no-progress watchdog; counts are the evaluations completed before"}, nil)
+		}
+	}()
+}
+
+// Tick tells the no-progress watchdog that work is going on although no evaluation has finished.
+func (r *Run) Tick() { r.watchTicks.Add(1) }
+
+func (r *Run) StopWatch() { r.watching.Store(false) }
+
+// spinSite is the innermost function of the code under test in a running or runnable goroutine.
+func spinSite(dump string) string {
+	for _, g := range strings.Split(dump, "\n\n") {
+		head, _, _ := strings.Cut(g, "\n")
+		if !strings.Contains(head, "[running") && !strings.Contains(head, "[runnable") {
+			continue
+		}
+		for _, ln := range strings.Split(g, "\n") {
+			if strings.HasPrefix(ln, "\t") {
+				continue
+			}
+			if i := strings.Index(ln, "la5nta/wl2k-go/"); i >= 0 {
+				fn := ln[i+len("la5nta/wl2k-go/"):]
+				if j := strings.LastIndex(fn, "("); j > 0 {
+					fn = fn[:j]
+				}
+				return fn
+			}
+		}
+	}
+	return "?"
+}
 
 // Infra reports an infrastructure failure (never a VIOLATION) and exits 2.
 func Infra(format string, a ...any) {
